@@ -135,6 +135,10 @@ pub fn rand_elem(r: &mut Rng, p: &DocProfile, id: &str, used: &mut BTreeSet<Stri
         // single tracked object without identifier (path-derived id) or a flattened string
         if r.chance(60) {
             m.insert(format!("solo{}", FLAT), json!({"sv": rand_scalar(r, p)}));
+            if r.chance(50) {
+                // a sibling slot, also without identifier: the two must get different path-derived ids
+                m.insert(format!("duo{}", FLAT), json!({"sv": rand_scalar(r, p), "t": "duo"}));
+            }
         } else {
             m.insert(format!("solo{}", FLAT), rand_scalar(r, p));
         }
@@ -184,6 +188,12 @@ pub fn rand_doc(r: &mut Rng, p: &DocProfile) -> Value {
     if p.kind_change && r.chance(40) {
         if let Some(v) = rand_meta(r, p, &mut used) {
             m.insert(format!("meta{}", FLAT), v);
+        }
+    }
+    if p.nested && r.chance(15) {
+        m.insert(format!("aux{}", FLAT), json!({"av": rand_scalar(r, p)}));
+        if r.chance(50) {
+            m.insert(format!("aux2{}", FLAT), json!({"av": rand_scalar(r, p), "n": 2}));
         }
     }
     Value::Object(m)
